@@ -54,6 +54,7 @@ static bool nontrivial(const gc::LibSpec& s, uint64_t max_points) {
         if (e.coord == gc::HALF) return true;
         if ((e.kind == gc::LABEL || e.kind == gc::REFERENCE) && (e.rot != 0 || e.mag != 0 || e.refl != 0)) return true;
         if (e.props == 3) return true;
+        if (e.xf != 0 || e.off != 0) return true;
     }
     return false;
 }
@@ -98,6 +99,7 @@ static JFields tags_of(const gc::LibSpec& s, uint64_t max_points, const std::str
         t.push_back({p + "coordinates", jstr(gc::coord_names[e.coord])});
         if (e.kind == gc::POLYGON) t.push_back({p + "vertices", jint(e.n)});
         if (e.kind == gc::FLEX_SIMPLE || e.kind == gc::ROBUST_SIMPLE) { t.push_back({p + "end", jstr(gc::end_names[e.end])}); t.push_back({p + "scale_width", jbool(e.sw)}); }
+        if (e.kind >= gc::FLEX_SIMPLE && e.kind <= gc::ROBUST_OUTLINE) { t.push_back({p + "transformed_by", jstr(gc::xf_names[e.xf])}); t.push_back({p + "element_offset", jbool(e.off)}); }
         if (e.kind == gc::LABEL || e.kind == gc::REFERENCE) { t.push_back({p + "rotation", jstr(gc::rot_names[e.rot])}); t.push_back({p + "magnification", jnum(gc::mag_value(e))}); t.push_back({p + "x_reflection", jbool(e.refl)}); }
         if (e.kind == gc::LABEL) t.push_back({p + "anchor", jint(gc::anchors[e.anchor])});
         if (e.kind == gc::REFERENCE) t.push_back({p + "target", jstr(e.target ? "absent_by_name" : "present_by_pointer")});
